@@ -136,7 +136,7 @@ def run(tier):
             )
         rep.ob("discipline", "no changing character ⇒ input returned unchanged", info["none_result"] == ("Ok", ("input",)) and not info["none_events"], "returns %s" % (info["none_result"],), b.where())
         aut = info["aut"]
-        rep.ob("discipline", "mapping loop is stateless", aut.nstates() == 1, "%d loop states: the result for a character depends on what precedes it" % aut.nstates(), b.where(), key="discipline|stateless")
+        rep.ob("discipline", "mapping loop is stateless", fcd.behavioural_states(aut, alpha) == 1, "%d behaviourally different loop states: the result for a character depends on what precedes it" % fcd.behavioural_states(aut, alpha), b.where(), key="discipline|stateless")
         try:
             per, q0, end_ev, end_res = fcd.letter_outputs(aut, alpha)
             for a in alpha:
